@@ -25,7 +25,7 @@ import Strengths.Gen.ScriptPy
 import Strengths.Gen.EngineLife
 
 namespace Strengths.C10
-open Strengths Strengths.Sim Strengths.World
+open Strengths Strengths.SimSt Strengths.World
 
 variable {σ ω : Type}
 
@@ -79,7 +79,7 @@ theorem every_call_returns_partial (h : List (Call σ ω)) (hr : Respecting fals
 
 /-- `iterate_n` is `n` times `Iterate()` and `run` is `iterate_n` for the number of iterations the wall clock
 allows: both are finite compositions of the (total) `Iterate` -/
-theorem loops_are_finite (A : Algo σ ω) (cfg : SamplerCfg) (s : Sim σ ω) (n k : Nat) :
+theorem loops_are_finite (A : Algo σ ω) (cfg : SamplerCfg) (s : SimSt σ ω) (n k : Nat) :
     Same (iterateN A cfg n s).1 (iter A cfg n s) ∧ Same (run A cfg k s).1 (iter A cfg (k + 1) s) :=
   ⟨iterateN_state A cfg n s, by
     obtain ⟨h1, _⟩ := run_eq_iterateN A cfg k s
@@ -104,7 +104,7 @@ theorem fixed_step_completes (A : Algo σ ω) (cfg : SamplerCfg) {dt : Rat} (hfs
 
 /-! ## 4. a completed simulation stays completed; further iterations change nothing -/
 
-theorem complete_sticky (A : Algo σ ω) (cfg : SamplerCfg) (s : Sim σ ω) (h : s.complete = true) :
+theorem complete_sticky (A : Algo σ ω) (cfg : SamplerCfg) (s : SimSt σ ω) (h : s.complete = true) :
     iterate A cfg s = ({ s with done := false }, false) ∧
     (∀ n, iterateN A cfg (n + 1) s = ({ s with done := false }, false)) ∧
     (∀ k, run A cfg k s = ({ s with done := false }, false)) ∧
